@@ -23,7 +23,9 @@ RULE = ("populations of 1-30 (CVR, MVR) pairs built with CVR.from_dict / CVR(...
         "make_all_assertions or by the direct constructor call without share_to_win (as the repo's tests do), audit types POLLING / "
         "CARD_COMPARISON / ONEAUDIT / unsupported, tally_pools argument absent / pool_contests dict / explicit list "
         "(missing or extra labels), explicit means and margins (grid in (-u, 2u), rarely >= 2u), thresholds on and off "
-        "sample numbers or None, samples with and without repeats, truncated samples; plus the single-pair table "
+        "sample numbers or None, sample numbers integers or (3 in 10) floats k/2^j with a fractional part, down to all in "
+        "[0,1), samples with and without repeats, truncated samples; every pair also with the phantom manual records the "
+        "library creates (no votes; the contest listed without votes); plus the single-pair table "
         "(CVR vote x phantom x pooled x MVR vote x phantom x style x type; all 1024 in the thorough tier, a random "
         "tenth of the budget in the quick tier); non-trivial = at least 2 cards "
         "under audit and a phantom, a pooled card, a discrepancy or an error branch; distinct = distinct canonical case")
@@ -116,8 +118,12 @@ def build(case):
     if case.get("add_pool_contests"):
         CVR.add_pool_contests(cvrs, CVR.pool_contests(cvrs))
     nums = case["sample_nums"]
+    # `sample_scale` D (a power of two, so that the division is exact): the numbers handed to the code are the floats
+    # k/D -- sample numbers are documented as floats and only ever compared; the model works with the integers k
+    D = case.get("sample_scale") or 1
     for i, c in enumerate(cvrs):
-        c.sample_num = nums[i % len(nums)] if i < len(nums) else 1000 + i
+        k = nums[i % len(nums)] if i < len(nums) else 1000 + i
+        c.sample_num = k if D == 1 else _scaled(k, D, case.get("sample_np"))
     # MVRs, padded with phantom MVRs when make_phantoms produced more cards than the case lists
     mvrs = []
     for i, c in enumerate(cvrs):
@@ -136,7 +142,7 @@ def build(case):
     feat = []
     for c, m in zip(cvrs, mvrs):
         feat.append({"c_hc": bool(c.has_contest(CID)), "c_ph": bool(c.phantom), "c_pool": bool(c.pool),
-                     "c_tp": c.tally_pool, "c_a": safe_a(c), "c_sn": int(c.sample_num),
+                     "c_tp": c.tally_pool, "c_a": safe_a(c), "c_sn": int(c.sample_num) if D == 1 else float(c.sample_num),
                      "m_hc": bool(m.has_contest(CID)), "m_ph": bool(m.phantom), "m_a": safe_a(m)})
     out = dict(audit=audit, con=con, contests=contests, asn=asn, cvrs=cvrs, mvrs=mvrs, feat=feat,
                upper=float(asn.assorter.upper_bound))
@@ -144,6 +150,21 @@ def build(case):
         _cache.clear()
     _cache[k] = out
     return out
+
+
+def _scaled(k, D, as_np=False):
+    """the sample number k/D as the code receives it (exact: D is a power of two, k < 2**53)"""
+    assert D & (D - 1) == 0 and Fraction(k / D) == Fraction(k, D)
+    if as_np:
+        import numpy as np
+        return np.float64(k / D)
+    return k / D
+
+
+def _threshold(case):
+    """the contest's sample_threshold as the code receives it"""
+    t, D = case.get("threshold"), case.get("sample_scale") or 1
+    return t if (t is None or D == 1) else _scaled(t, D, case.get("sample_np"))
 
 
 def _num(x):
@@ -206,15 +227,22 @@ def impl(case):
     pairs = []
     for m, c in zip(mvrs, cvrs):
         _ft = case.get("flag_type", "bool")
-        mph = CVR(id=m.id, votes=m.votes, phantom=(True if _ft == "bool" else np.bool_(True) if _ft == "np" else 1))
+        _true = (True if _ft == "bool" else np.bool_(True) if _ft == "np" else 1)
+        mph = CVR(id=m.id, votes=m.votes, phantom=_true)
+        # the records the library itself makes for a card that cannot be found: no votes at all
+        # (Dominion/Hart.sample_from_cvrs, sample_from_manifest), or the contest listed without votes (make_phantoms)
+        mph0 = CVR(id=m.id, votes={}, phantom=_true)
+        mphc = CVR(id=m.id, votes={CID: {}}, phantom=_true)
         pairs.append({
             "o": _call(lambda: {"st": "ok", "v": _num(asn.assorter.overstatement(m, c, us))}),
             "b": _call(lambda: {"st": "ok", "v": _num(asn.overstatement_assorter(m, c, use_style=us))}),
             "bph": _call(lambda: {"st": "ok", "v": _num(asn.overstatement_assorter(mph, c, use_style=us))}),
+            "bph0": _call(lambda: {"st": "ok", "v": _num(asn.overstatement_assorter(mph0, c, use_style=us))}),
+            "bphc": _call(lambda: {"st": "ok", "v": _num(asn.overstatement_assorter(mphc, c, use_style=us))}),
         })
     res["pairs"] = pairs
     # 4. data for the test
-    con.sample_threshold = case.get("threshold")
+    con.sample_threshold = _threshold(case)
     sc = [cvrs[i] for i in case["sample"]]
     sm = [mvrs[i] for i in case["sample"]]
     if case.get("mvr_sample_len") is not None:
@@ -248,8 +276,10 @@ def _ty(case):
 def request(case):
     o = build(case)
     f = o["feat"]
+    D = case.get("sample_scale") or 1
     cv = [{"hc": x["c_hc"], "ph": x["c_ph"], "pool": x["c_pool"], "tp": x["c_tp"],
-           "a": fr(x["c_a"] if x["c_a"] is not None else 0), "sn": x["c_sn"]} for x in f]
+           "a": fr(x["c_a"] if x["c_a"] is not None else 0),
+           "sn": x["c_sn"] if D == 1 else int(Fraction(x["c_sn"]) * D)} for x in f]
     mv = [{"hc": x["m_hc"], "ph": x["m_ph"], "a": fr(x["m_a"] if x["m_a"] is not None else 0)} for x in f]
     arg = case.get("tally_pools_arg")
     if arg == "pool_contests":
@@ -316,6 +346,11 @@ def compare(case, ir, mr):
     for i, (p, q) in enumerate(zip(ir["pairs"], mr["pairs"])):
         for f in ("o", "b", "bph"):
             r = _cmp_res(f"pairs[{i}].{f}", p[f], q[f], ["v"])
+            if r:
+                return r
+        # the model scores a phantom manual record whatever it lists: one answer for every phantom record
+        for f in ("bph0", "bphc"):
+            r = _cmp_res(f"pairs[{i}].{f}", p[f], q["bph"], ["v"])
             if r:
                 return r
     for f in ("dat", "datAll", "popAll"):
@@ -482,7 +517,7 @@ def oracle_c06(case, ir):
     expect_u = u if not comp else 2 / (2 - v / u)
     sample = list(case["sample"])
     us = case["use_style"]
-    thr = case.get("threshold")
+    thr = _threshold(case)
     for key, idx, use_all in (("dat", sample, False), ("datAll", sample, True), ("popAll", list(range(len(f))), True)):
         if malformed and key != "popAll":
             continue
@@ -561,14 +596,18 @@ def oracle_c08(case, ir):
             continue
         if x["m_a"] < 0 or x["c_a"] < 0:
             continue
-        b, bph = p["b"], p["bph"]
-        if b.get("st") == "ok":
-            if bph.get("st") != "ok":
-                return {"what": f"pair {i}: overstatement_assorter raised {bph.get('err')} with a phantom MVR but not with the MVR", "pair": i}
-            if isinstance(b["v"], str) or isinstance(bph["v"], str):
-                continue
-            if bph["v"] > b["v"] + TOL * max(1.0, abs(b["v"])):
-                return {"what": f"pair {i}: overstatement assorter with a phantom MVR {bph['v']} exceeds {b['v']} with the MVR", "pair": i}
+        b = p["b"]
+        # the phantom that replaces the manual record: the same record flagged phantom, a phantom without votes, a
+        # phantom that lists the contest without votes
+        for key, shape in (("bph", "the same votes"), ("bph0", "votes {}"), ("bphc", f"votes {{{CID!r}: {{}}}}")):
+            bph = p[key]
+            if b.get("st") == "ok":
+                if bph.get("st") != "ok":
+                    return {"what": f"pair {i}: overstatement_assorter raised {bph.get('err')} with a phantom MVR ({shape}) but not with the MVR", "pair": i}
+                if isinstance(b["v"], str) or isinstance(bph["v"], str):
+                    continue
+                if bph["v"] > b["v"] + TOL * max(1.0, abs(b["v"])):
+                    return {"what": f"pair {i}: overstatement assorter with a phantom MVR ({shape}) {bph['v']} exceeds {b['v']} with the MVR", "pair": i}
     return None
 
 
@@ -802,6 +841,11 @@ def gen_one(rng):
     case["sample_nums"] = nums
     r = rng.random()
     case["threshold"] = (rng.choice(nums) if r < 0.6 else rng.randint(0, 10 * total + 10) if r < 0.93 else None)
+    # sample numbers (and the threshold) as floats with a fractional part: k/D; D large puts all of them in [0, 1)
+    if rng.chance(0.3):
+        big = 1 << (10 * total + 10).bit_length()
+        case["sample_scale"] = rng.choice([2, 4, 16, big, big, 1 << 20])
+        case["sample_np"] = rng.chance(0.3)
     # n_strata
     r = rng.random()
     case["n_strata"] = 1 if r < 0.96 else (2 if r < 0.985 else 0)
